@@ -1,11 +1,13 @@
 import GeoVerif.Model.VPTree
 import GeoVerif.Model.GeodProj
+import GeoVerif.Model.IntersectFix
 import GeoVerif.Spec.RealInst
 import GeoVerif.Proofs.VPTree
 import Mathlib.Tactic.Ring
 import Mathlib.Tactic.LinearCombination
 import Mathlib.Tactic.FieldSimp
 import Mathlib.Tactic.Positivity
+import Mathlib.Tactic.Linarith
 /-!
 # C17 — constructions built on geodesics
 
@@ -121,6 +123,42 @@ theorem cass_on_meridian (dlon sig12 azi1 azi2 da : ℝ) (neg : Bool) :
     (cassForwardXA dlon neg sig12 0 azi1 azi2 da).2.1 =
       (if |dlon| ≤ 90 then (if neg then 90 - da else 90 + da) else (if neg then -90 - da else -90 + da)) := by
   by_cases h : |dlon| ≤ 90 <;> cases neg <;> simp [cassForwardXA, ofNat_real, h]
+
+/-! ## Intersect: the closed-form helpers (no theorem about the tiling search itself) -/
+open GeoVerif.IntersectFix
+
+/-- `fixcoincident` moves an intersection `p` of coincident geodesics (orientation `c = ±1`) along the line of coincident
+    intersections `{p + (t, c t)}` to the point centred on `p0` (`Δx = −c Δy`), which minimises the documented L1 distance
+    to `p0` among all points of that line -/
+theorem fixcoincident_spec (p0 p : XP ℝ) (c : Int) (hc : c = 1 ∨ c = -1) :
+    (fixcoincident p0 p c).y - p.y = c * ((fixcoincident p0 p c).x - p.x) ∧
+    (fixcoincident p0 p c).x - p0.x = -(c * ((fixcoincident p0 p c).y - p0.y)) ∧
+    (fixcoincident p0 p c).c = p.c ∧
+    ∀ t : ℝ, |(fixcoincident p0 p c).x - p0.x| + |(fixcoincident p0 p c).y - p0.y| ≤ |p.x + t - p0.x| + |p.y + c * t - p0.y| := by
+  rcases hc with rfl | rfl
+  · simp only [fixcoincident, ofC, ofNat_real]
+    norm_num
+    refine ⟨by ring, ?_⟩
+    intro t
+    rcases abs_cases (p.x + (p0.x + p0.y - (p.x + p.y)) / 2 - p0.x) with h1 | h1 <;>
+    rcases abs_cases (p.y + (p0.x + p0.y - (p.x + p.y)) / 2 - p0.y) with h2 | h2 <;>
+    rcases abs_cases (p.x + t - p0.x) with h3 | h3 <;>
+    rcases abs_cases (p.y + t - p0.y) with h4 | h4 <;> linarith [h1.1, h2.1, h3.1, h4.1]
+  · simp only [fixcoincident, ofC, ofNat_real]
+    norm_num
+    refine ⟨by ring, ?_⟩
+    intro t
+    rcases abs_cases (p.x + (p0.x + -p0.y - (p.x + -p.y)) / 2 - p0.x) with h1 | h1 <;>
+    rcases abs_cases (p.y + -((p0.x + -p0.y - (p.x + -p.y)) / 2) - p0.y) with h2 | h2 <;>
+    rcases abs_cases (p.x + t - p0.x) with h3 | h3 <;>
+    rcases abs_cases (p.y + -t - p0.y) with h4 | h4 <;> linarith [h1.1, h2.1, h3.1, h4.1]
+
+/-- the documented segment indicator `3 kx + ky` vanishes exactly when the intersection lies within both segments -/
+theorem segmentmode_zero_iff (sx sy : ℝ) (p : XP ℝ) :
+    segmentmode sx sy p = 0 ↔ (0 ≤ p.x ∧ p.x ≤ sx) ∧ (0 ≤ p.y ∧ p.y ≤ sy) := by
+  simp only [segmentmode, ltb_real, leb_real, ofNat_real, decide_eq_true_eq, Nat.cast_zero]
+  by_cases h1 : p.x < 0 <;> by_cases h2 : p.x ≤ sx <;> by_cases h3 : p.y < 0 <;> by_cases h4 : p.y ≤ sy <;>
+    simp [h1, h2, h3, h4] <;> (try constructor) <;> (try linarith)
 
 /-! ## nearest neighbour: Save / Load -/
 open GeoVerif.VPTree
